@@ -316,6 +316,15 @@ def run_case(case):
                 viols.append(Violation({"kind": "unknown-option-no-warning"}, f"{k}: {r.err[-300:]!r}"))
             if any(k in f or k in v for f, v in job.directives.get("__all__", [])):
                 viols.append(Violation({"kind": "unknown-option-reached-scheduler"}, k))
+        # ---- where the logs are sent
+        mode_ = (case["log_mode"] or "full") if b == "slurm" else "full"
+        want_out = os.path.join(logs, "T.stdout") if mode_ != "none" else "/dev/null"
+        want_err = os.path.join(logs, "T.stderr") if mode_ == "full" else None
+        if job.stdout_path != want_out or job.stderr_path != want_err:
+            viols.append(Violation({"kind": "log-destination", "backend": b, "mode": mode_},
+                                   f"log mode {mode_}: script sends stdout to {job.stdout_path!r} and stderr to {job.stderr_path!r}; "
+                                   f"expected {want_out!r} / {want_err!r}"))
+            return CaseResult(viols, False, sorted(labels))
         # ---- differential execution
         before = listing(wd)
         rc, leaked = run_script(script, b, job.stdout_path, job.stderr_path, job.id)
